@@ -72,12 +72,34 @@ class FakeS3:
         self.downloads, self.listings = [], []
         self.client, self.resource = _Client(self), _Resource(self)
         self._saved = None
+        # every other instance leaves the handles to be created LAZILY by the library itself
+        # (s3._client / s3._resource start as None and a stub `boto3` hands out the fakes)
+        FakeS3._n += 1
+        self.lazy = FakeS3._n % 2 == 0
+
+    _n = 0
 
     def __enter__(self):
-        self._saved = (s3mod.s3._client, s3mod.s3._resource)
-        s3mod.s3._client, s3mod.s3._resource = self.client, self.resource
+        self._saved = (s3mod.s3._client, s3mod.s3._resource, s3mod.boto3)
+        if self.lazy:
+            fake = self
+
+            class _Boto3:
+                @staticmethod
+                def client(name, *a, **k):
+                    assert name == 's3', name
+                    return fake.client
+
+                @staticmethod
+                def resource(name, *a, **k):
+                    assert name == 's3', name
+                    return fake.resource
+            s3mod.boto3 = _Boto3
+            s3mod.s3._client = s3mod.s3._resource = None
+        else:
+            s3mod.s3._client, s3mod.s3._resource = self.client, self.resource
         return self
 
     def __exit__(self, *a):
-        s3mod.s3._client, s3mod.s3._resource = self._saved
+        s3mod.s3._client, s3mod.s3._resource, s3mod.boto3 = self._saved
         return False
